@@ -266,10 +266,13 @@ pub fn make_case(w: &World, seed: u64, kind_sel: u64, depth: u32, sane: bool) ->
         }
         _ => {
             let ci = CtxInfo { tap: true, legacy_like: false, n_keys: 5 };
-            let nleaves = 1 + (seed / 7) % 3;
+            // now and then a ladder of 9 leaves: the deepest leaves sit at depth 8, so their
+            // control block (33 + 32*8 = 289 bytes) needs a 3-byte length prefix in the witness
+            let deep = (seed / 3) % 9 == 0;
+            let nleaves = if deep { 9 } else { 1 + (seed / 7) % 3 };
             let mut leaves = Vec::new();
             for l in 0..nleaves {
-                let m = mk::<Tap>(w, seed.wrapping_mul(31).wrapping_add(l), ci, depth, sane)?;
+                let m = mk::<Tap>(w, seed.wrapping_mul(31).wrapping_add(l), ci, if deep { 0 } else { depth }, sane)?;
                 collect_keys(w, &m, &mut keys);
                 collect_locks(&m, &mut abs, &mut rel);
                 dumps.push((dump_str(w, &m.node), m.encode().into_bytes()));
@@ -277,6 +280,13 @@ pub fn make_case(w: &World, seed: u64, kind_sel: u64, depth: u32, sane: bool) ->
                 leaves.push(m);
             }
             let tree = match leaves.len() {
+                9 => {
+                    let mut t = TapTree::leaf(leaves.pop().unwrap());
+                    while let Some(l) = leaves.pop() {
+                        t = TapTree::combine(TapTree::leaf(l), t).ok()?;
+                    }
+                    t
+                }
                 1 => TapTree::leaf(leaves.pop().unwrap()),
                 2 => {
                     let b = TapTree::leaf(leaves.pop().unwrap());
